@@ -43,6 +43,9 @@ class SessionCache(object):
         # Maps sessionIDs to sessions
         self.entriesDict = {}
 
+        # Maps sessionIDs to the position of their entry in entriesList
+        self._entriesIndex = {}
+
         #Circular list of (sessionID, timestamp) pairs
         self.entriesList = [(None,None)] * maxEntries
 
@@ -73,17 +76,32 @@ class SessionCache(object):
         self.lock.acquire()
         try:
             #Add the new element
-            self.entriesDict[bytes(sessionID)] = session
-            self.entriesList[self.lastIndex] = (bytes(sessionID), time.time())
+            sessionID = bytes(sessionID)
+            #If the ID is already stored, retire its old list entry so that
+            #evicting or purging it later doesn't remove the new session
+            oldIndex = self._entriesIndex.get(sessionID)
+            if oldIndex is not None:
+                self.entriesList[oldIndex] = (None,
+                                              self.entriesList[oldIndex][1])
+            self.entriesDict[sessionID] = session
+            self._entriesIndex[sessionID] = self.lastIndex
+            self.entriesList[self.lastIndex] = (sessionID, time.time())
             self.lastIndex = (self.lastIndex+1) % len(self.entriesList)
 
             #If the cache is full, we delete the oldest element to make an
             #empty space
             if self.lastIndex == self.firstIndex:
-                del(self.entriesDict[self.entriesList[self.firstIndex][0]])
+                self._delete(self.firstIndex)
                 self.firstIndex = (self.firstIndex+1) % len(self.entriesList)
         finally:
             self.lock.release()
+
+    #Delete the session a list entry refers to (if it still does)
+    def _delete(self, index):
+        sessionID = self.entriesList[index][0]
+        if sessionID is not None:
+            del(self.entriesDict[sessionID])
+            del(self._entriesIndex[sessionID])
 
     #Delete expired items
     def _purge(self):
@@ -96,7 +114,7 @@ class SessionCache(object):
         index = self.firstIndex
         while index != self.lastIndex:
             if currentTime - self.entriesList[index][1] > self.maxAge:
-                del(self.entriesDict[self.entriesList[index][0]])
+                self._delete(index)
                 index = (index+1) % len(self.entriesList)
             else:
                 break
